@@ -78,6 +78,18 @@ def subst_case(draw, kinds=PLAIN_KINDS, sat=True, depth_choices=(0, 1, 1, 2, 2, 
                                     "spec": draw(specs.spec_strategy(depth=0, sat=True))})
         if draw(st.integers(0, 3)) == 0:
             spec = {"t": "list", "form": "typed", "elem": spec}
+    elif "zoo" in kinds and draw(st.integers(0, 11)) == 0:
+        # an any-union whose alternatives accept the value but cannot take it: relaxed dict + extra key,
+        # untyped dict / list + a member that cannot be converted
+        member = draw(specs.spec_strategy(depth=0, sat=True))
+        alts = draw(st.lists(st.sampled_from([
+            {"t": "dict", "entries": [{"key": "a", "opt": False, "spec": member}], "relaxed": True},
+            {"t": "dict"}, {"t": "list", "form": "untyped"}, {"t": "list", "form": "ellipsis", "elems": []},
+            {"t": "dict", "entries": [{"key": "a", "opt": True, "spec": member}], "relaxed": True, "relaxed_at": 0},
+        ]), min_size=1, max_size=3))
+        spec = {"t": "any", "alts": alts}
+        if draw(st.booleans()):
+            spec = {"t": "dict", "entries": [{"key": "payload", "opt": False, "spec": spec}], "relaxed": False}
     else:
         spec = draw(specs.spec_strategy(depth=depth,
                                         sat=sat if isinstance(sat, bool) else draw(st.booleans())))
@@ -183,5 +195,17 @@ def subst_case_with_probes(draw, kinds=PLAIN_KINDS, dict_bias=0):
         if math.isfinite(x):
             for y in (x * (1 + 1e-10), x * (1 - 1e-10), x + 0.04, x - 0.04, math.nextafter(x, math.inf)):
                 probes.append(values.replace_at(v, p, y))
+    # growth probes: every list of v with one more (ill-typed or copied) item, every dict with one more key
+    grow = [p for p in values.paths(v) if isinstance(values.get_at(v, p), (list, dict))]
+    for p in grow[:4]:
+        x = values.get_at(v, p)
+        if isinstance(x, list):
+            probes.append(values.replace_at(v, p, x + [draw(values.junk_scalar)]))
+            if x:
+                probes.append(values.replace_at(v, p, x + [x[-1]]))
+        else:
+            y = dict(x)
+            y[draw(st.sampled_from(["grown", 77]))] = draw(values.junk_scalar)
+            probes.append(values.replace_at(v, p, y))
     c["probes"] = probes
     return c
